@@ -76,3 +76,100 @@ func vxH_C02_frozen() {
 		c.Close()
 	}
 }
+
+func init() { vxRegister("vxH_C02_childHandles", vxH_C02_childHandles) }
+
+// vxH_C02_childHandles: a store-backed collection with a child collection;
+// after one persisted round a snapshot (of the collection or of the store)
+// is held open while child snapshots are opened, read and closed on it and
+// further rounds / empty merger cycles happen. The held snapshot keeps
+// showing the first round, in the parent and in every child snapshot that
+// is opened on it, however often.
+func vxH_C02_childHandles() {
+	steps := 3
+	fs := vxNewFS()
+	so := vxStoreOptions(fs)
+	so.CompactionLevelMaxSegments = 1
+	so.CompactionPercentage = -1
+	so.CollectionOptions.CachePersisted = vxChoose(2) == 1
+	po := StorePersistOptions{CompactionConcern: CompactionConcern(vxChoose(3))}
+	store, coll, err := OpenStoreCollection(fs.dir, so, po)
+	vxAssert("open-ok", err == nil)
+	ref := vxNewNode()
+	ref.kids["a"] = vxNewNode()
+	names := []string{"a"}
+	none := map[string]bool{}
+	var K vxKey
+	K.n = 1
+	K.b[0] = 'k'
+	kb := vxKeyBytes(K)
+	round := func() {
+		b, berr := coll.NewBatch(4, 64)
+		vxAssert("newbatch-ok", berr == nil)
+		ents := vxFixedSet()
+		vxFillBatch(b, ents)
+		ref.layers = append(ref.layers, ents)
+		cb, cerr := b.NewChildCollectionBatch("a", BatchOptions{TotalOps: 2, TotalKeyValBytes: 16})
+		vxAssert("childbatch-ok", cerr == nil)
+		cents := vxFixedSet()
+		vxFillBatch(cb, cents)
+		ref.kids["a"].layers = append(ref.kids["a"].layers, cents)
+		vxAssert("executebatch-ok", coll.ExecuteBatch(b, WriteOptions{}) == nil)
+		b.Close()
+		vxDrain(coll)
+	}
+	round()
+	if vxChoose(2) == 1 {
+		// the first round comes from an earlier session
+		coll.Close()
+		store.Close()
+		vxQuiesce()
+		store, coll, err = OpenStoreCollection(fs.dir, so, po)
+		vxAssert("reopen-ok", err == nil)
+	}
+	var held Snapshot
+	if vxChoose(2) == 1 {
+		held, err = store.Snapshot()
+	} else {
+		held, err = coll.Snapshot()
+	}
+	vxAssert("held-snapshot-ok", err == nil)
+	// the reference the held snapshot is frozen at
+	frozen := vxNewNode()
+	frozen.layers = append(frozen.layers, ref.layers...)
+	frozen.kids["a"] = vxNewNode()
+	frozen.kids["a"].layers = append(frozen.kids["a"].layers, ref.kids["a"].layers...)
+	vxCheckTree("held-first", held, frozen, K, kb, names, none)
+	for s := 0; s < steps; s++ {
+		kind := vxChoose(4)
+		if kind == 0 {
+			break
+		}
+		switch kind {
+		case 1:
+			round()
+		case 2:
+			coll.(*collection).NotifyMerger("idle", true)
+			vxQuiesce()
+		case 3:
+			// another reader opens and closes its own snapshot and child
+			// snapshot (possibly the same cached object)
+			other, oerr := coll.Snapshot()
+			vxAssert("other-snapshot-ok", oerr == nil)
+			oc, _ := other.ChildCollectionSnapshot("a")
+			if oc != nil {
+				oc.Close()
+			}
+			other.Close()
+		}
+		vxCheckTree("held", held, frozen, K, kb, names, none)
+	}
+	// the current state is still right too
+	cur, cerr := coll.Snapshot()
+	vxAssert("current-snapshot-ok", cerr == nil)
+	vxCheckTree("current", cur, ref, K, kb, names, none)
+	cur.Close()
+	held.Close()
+	coll.Close()
+	store.Close()
+}
